@@ -198,7 +198,8 @@ CSS_KEYS = ["color", "font_size", "fontSize", "backgroundColor", "background_col
             "--mainBg", "--brand_color", "--x", "-webkit-Box_x", "__x", "--", "a-B", "--Ü_x",
             # names that look like vendor prefixes in DOM spelling: no prefix rule, just the conversion
             "msTransition", "ms_flex_align", "ms-x", "webkitBoxShadow", "mozAppearance", "oTransition", "khtmlUserSelect", "ms", "msx", "MsFoo", "cssFloat", "float_"]
-CSS_VALS = ["red", "12px", 0, 3, 1.5, -2, None, None, "", "a b", "url(x;y)", "10%", 1e21, "red;", "0 ;", "';", "1px;;", " lead", "trail ", "a:b", "x\ny", True, False]
+CSS_VALS = ["red", "12px", 0, 3, 1.5, -2, None, None, "", "a b", "url(x;y)", "10%", 1e21, "red;", "0 ;", "';", "1px;;", " lead", "trail ", "a:b", "x\ny", True, False,
+            float("nan"), float("inf"), -0.0, 1e-320, 2 ** 63, 0.1 + 0.2, 1 / 3]
 
 
 def check_css(ctx, keys, vals, collapse):
